@@ -4,7 +4,7 @@ use indexmap::IndexSet;
 pub use options::{Options, Regex};
 use patch_flags::PatchFlags;
 use slot_flag::SlotFlag;
-use std::{borrow::Cow, collections::BTreeMap, mem};
+use std::{borrow::Cow, cell::Cell, collections::BTreeMap, mem};
 use swc_core::{
     common::{comments::Comments, Mark, Span, Spanned, SyntaxContext, DUMMY_SP},
     ecma::{
@@ -44,6 +44,8 @@ where
     define_component: Option<SyntaxContext>,
     interfaces: FnvHashMap<(Atom, SyntaxContext), TsInterfaceDecl>,
     type_aliases: FnvHashMap<(Atom, SyntaxContext), TsType>,
+    resolve_depth: Cell<u16>,
+    resolve_aborted: Cell<bool>,
 
     unresolved_mark: Mark,
     comments: Option<C>,
@@ -71,6 +73,8 @@ where
             define_component: None,
             interfaces: Default::default(),
             type_aliases: Default::default(),
+            resolve_depth: Default::default(),
+            resolve_aborted: Default::default(),
 
             unresolved_mark,
             comments,
